@@ -479,41 +479,20 @@ impl DBM {
         tower_id: TowerId,
         locator: Locator,
     ) -> Result<(), SqliteError> {
-        // We will delete data from pending_appointments or from appointments depending on whether the later has a single reference
-        // to it or not. If that's the case, deleting the entry from appointments will trigger a cascade deletion of the entry in pending.
-        // If there are other references, this will be deleted when removing the last one.
-        let count = {
-            let mut stmt = self
-                .connection
-                .prepare("SELECT COUNT(*) FROM pending_appointments WHERE locator=?")
-                .unwrap();
-            let pending = stmt
-                .query_row(params![locator.to_vec()], |row| row.get::<_, u32>(0))
-                .unwrap();
-
-            let mut stmt = self
-                .connection
-                .prepare("SELECT COUNT(*) FROM invalid_appointments WHERE locator=?")
-                .unwrap();
-            let invalid = stmt
-                .query_row(params![locator.to_vec()], |row| row.get::<_, u32>(0))
-                .unwrap_or(0);
-
-            pending + invalid
-        };
-
+        // Delete the link of this tower first and the body only if no tower (as either pending or invalid) refers to it anymore.
+        // Counting the references before deleting is not enough: the only reference left may belong to another tower (e.g. when
+        // this tower was abandoned and registered again while one of its pending appointments was being retried).
         let tx = self.get_mut_connection().transaction().unwrap();
-        if count == 1 {
-            tx.execute(
-                "DELETE FROM appointments WHERE locator=?",
-                params![locator.to_vec()],
-            )?;
-        } else {
-            tx.execute(
-                "DELETE FROM pending_appointments WHERE locator=?1 AND tower_id=?2",
-                params![locator.to_vec(), tower_id.to_vec()],
-            )?;
-        };
+        tx.execute(
+            "DELETE FROM pending_appointments WHERE locator=?1 AND tower_id=?2",
+            params![locator.to_vec(), tower_id.to_vec()],
+        )?;
+        tx.execute(
+            "DELETE FROM appointments WHERE locator=?1
+                AND locator NOT IN (SELECT locator FROM pending_appointments)
+                AND locator NOT IN (SELECT locator FROM invalid_appointments)",
+            params![locator.to_vec()],
+        )?;
         tx.commit()
     }
 
